@@ -163,6 +163,141 @@ def valOfRV : RV → Val
   | .nil => .null
   | _ => .other "object"
 
+/-- one token of a pattern, given the way parameters are looked up: literal text, a referenced parameter, or a
+function call; after the first failure nothing more is evaluated -/
+def evalTokStep (gp : St → String → St × Except String RV) (p : Prog)
+    (acc : St × List Val × Option String) (t : Token.Token) : St × List Val × Option String :=
+  let (st, vals, err) := acc
+  if err.isSome then acc else
+  match t.sem with
+  | .lit x => (st, vals ++ [.str x], none)
+  | .ref n =>
+    match gp st n with
+    | (st', .ok v) => (st', vals ++ [valOfRV v], none)
+    | (st', .error e) => (st', vals, some e)
+  | .call _ goFn params =>
+    match builtinCall p goFn params with
+    | .ok v => (st, vals ++ [v], none)
+    | .error e => (st, vals, some ("cannot execute " ++ t.raw ++ ": " ++ e))
+
+/-- `resolveDeps`, one argument: the value is appended (nil on error), errors are collected -/
+def argsStep (ra : St → Bag → Output.Arg → St × Bag × Except String RV)
+    (acc : St × Bag × List RV × List String) (a : Output.Arg) : St × Bag × List RV × List String :=
+  let (st, bag, vals, errs) := acc
+  match ra st bag a with
+  | (st', bag', .ok v) => (st', bag', vals ++ [v], errs)
+  | (st', bag', .error e) => (st', bag', vals ++ [.nil], errs ++ [e])
+
+/-- one field assignment on the created object -/
+def fieldStep (ra : St → Bag → Output.Arg → St × Bag × Except String RV) (obj : RV)
+    (acc : St × Bag × List String) (fl : Output.Field) : St × Bag × List String :=
+  let (st, bag, errs) := acc
+  match ra st bag fl.value with
+  | (st', bag', .error e) => (st', bag', errs ++ [e])
+  | (st', bag', .ok v) =>
+    match obj with
+    | .ref _ n => (updObj st' n fun o => if fl.name == "F1" then { o with f1 := some v } else { o with f2 := some v }, bag', errs)
+    | _ => (st', bag', errs ++ ["set field: not a settable object"])
+
+/-- one call; a wither replaces the current object -/
+def callStep (ras : St → Bag → List Output.Arg → St × Bag × Except String (List RV))
+    (acc : St × Bag × RV × List String) (c : Output.Call) : St × Bag × RV × List String :=
+  let (st, bag, cur, errs) := acc
+  match ras st bag c.args with
+  | (st', bag', .error e) => (st', bag', cur, errs ++ [e])
+  | (st', bag', .ok vals) =>
+    match cur with
+    | .ref _ n =>
+      if c.immutable then
+        let path := match (st'.heap.lookup n) with
+          | some o => ((o.ctor.splitOn ".").dropLast |> String.intercalate ".")
+          | none => ""
+        let (st'', m) := alloc st' { ctor := path ++ "." ++ c.method, args := vals, prev := some cur }
+        (st'', bag', .ref true m, errs)
+      else (updObj st' n fun o => { o with log := o.log ++ [(c.method, vals)] }, bag', cur, errs)
+    | _ => (st', bag', cur, errs ++ ["call on a non-object"])
+
+/-- one decorator of the declaration list: applied iff the service carries its tag; the first error stops -/
+def decoStep (ras : St → Bag → List Output.Arg → St × Bag × Except String (List RV)) (p : Prog) (s : Output.Service) (id : String)
+    (acc : St × Bag × RV × Option String × Nat) (d : Output.Decorator) : St × Bag × RV × Option String × Nat :=
+  let (st, bag, cur, err, i) := acc
+  if err.isSome then (st, bag, cur, err, i + 1) else
+  if !(s.tags.any (·.name == d.tag)) then (st, bag, cur, err, i + 1) else
+  match ras st bag d.args with
+  | (st', bag', .error e) => (st', bag', cur, some e, i + 1)
+  | (st', bag', .ok vals) =>
+    let sym := symbol p d.decorator
+    let base : Obj := { ctor := sym, args := [.prim (.str d.tag), .prim (.str id)] ++ vals }
+    let o : Obj := match cur with
+      | .ref true _ => { base with prev := some cur }
+      | .anon true _ => { base with prev := some cur }
+      | .nilobj => base
+      | _ => { base with f1 := some cur }
+    let (st'', m) := alloc st' o
+    (st'', bag', .ref true m, none, i + 1)
+
+/-- one carrier of a tag, obtained with `get`; the first error stops -/
+def taggedStep (g : St → Bag → String → St × Bag × Except String RV)
+    (acc : St × Bag × List RV × Option String) (c : String × Int) : St × Bag × List RV × Option String :=
+  let (st, bag, vals, err) := acc
+  if err.isSome then acc else
+  match g st bag c.1 with
+  | (st', bag', .ok v) => (st', bag', vals ++ [v], none)
+  | (st', bag', .error e) => (st', bag', vals, some e)
+
+/-- creation of the object of a live service: constructor call (arguments resolved first), value expression, or the
+zero value of the declared type -/
+def createObj (ras : St → Bag → List Output.Arg → St × Bag × Except String (List RV)) (p : Prog) (s : Output.Service)
+    (st : St) (bag : Bag) : St × Bag × Except String RV :=
+  if s.constructor != "" then
+    match ras st bag s.args with
+    | (st, bag, .error e) => (st, bag, .error ("constructor args: " ++ e))
+    | (st, bag, .ok vals) =>
+      let sym := symbol p s.constructor
+      if sym.endsWith ".NewFail" then (st, bag, .error "constructor: boom")
+      else
+        let (st, n) := alloc st { ctor := sym, args := vals }
+        (st, bag, .ok (.ref (!sym.endsWith ".NewVal") n))
+  else if s.value != "" then
+    -- the value expression is evaluated at every construction: a struct literal (`&pkg.Obj{}` / `pkg.Obj{}`) is a
+    -- fresh object each time (it can then receive fields and calls of its own); other expressions denote what they name
+    if s.value.endsWith "{}" then
+      let (st, n) := alloc st { ctor := "", args := [] }
+      (st, bag, .ok (.ref (stripAmp s.value).1 n))
+    else (st, bag, .ok (goValue p s.value))
+  else (st, bag, .ok (zeroOf s.type))
+
+/-- the end of a successful construction: it is logged, and the object is remembered according to the scope -/
+def finishGet (sc : Output.Scope) (id : String) (obj : RV) (st : St) (bag : Bag) : St × Bag × Except String RV :=
+  let st := { st with evalLog := st.evalLog ++ ["ctor:" ++ id] }
+  match sc with
+  | .shared => ({ st with shared := (id, obj) :: st.shared }, bag, .ok obj)
+  | .contextual => (st, (id, obj) :: bag, .ok obj)
+  | _ => (st, bag, .ok obj)
+
+/-- construction of a service that is not cached: todo check, creation, fields, calls, decorators, bookkeeping -/
+def getBody (ra : St → Bag → Output.Arg → St × Bag × Except String RV)
+    (ras : St → Bag → List Output.Arg → St × Bag × Except String (List RV))
+    (p : Prog) (s : Output.Service) (sc : Output.Scope) (id : String) (st : St) (bag : Bag) : St × Bag × Except String RV :=
+  if s.todo then (st, bag, .error ("get(" ++ Val.quoteStr id ++ "): constructor: service todo")) else
+  -- creation
+  let (st, bag, created) := createObj ras p s st bag
+  match created with
+  | .error e => (st, bag, .error ("get(" ++ Val.quoteStr id ++ "): " ++ e))
+  | .ok obj =>
+  -- fields, in emitted (sorted) order; all are attempted
+  let (st, bag, ferrs) := s.fields.foldl (fieldStep ra obj) (st, bag, [])
+  if !ferrs.isEmpty then (st, bag, .error ("get(" ++ Val.quoteStr id ++ "): " ++ String.intercalate "; " ferrs)) else
+  -- calls in order; a wither replaces the object; all calls are attempted unless a wither fails
+  let (st, bag, obj, cerrs) := s.calls.foldl (callStep ras) (st, bag, obj, [])
+  if !cerrs.isEmpty then (st, bag, .error ("get(" ++ Val.quoteStr id ++ "): " ++ String.intercalate "; " cerrs)) else
+  -- decorators in declaration order, for the tags the service carries; first error stops
+  let (st, bag, obj, derr, _) := p.out.decorators.foldl (decoStep ras p s id) (st, bag, obj, none, 0)
+  match derr with
+  | some e => (st, bag, .error ("get(" ++ Val.quoteStr id ++ "): " ++ e))
+  | none =>
+    finishGet sc id obj st bag
+
 mutual
 
 /-- `getParam(id)`: overridden value, cached value, or the provider evaluated now (and cached) -/
@@ -194,19 +329,7 @@ def evalRaw : Nat → Prog → St → Val → St × Except String RV
       | .error es => (st, .error (String.intercalate "; " es))
       | .ok ts =>
         -- evaluate tokens left to right; a failing token aborts (`_concatenateChunks`)
-        let (st, vals, err) := ts.foldl (fun (acc : St × List Val × Option String) t =>
-          let (st, vals, err) := acc
-          if err.isSome then acc else
-          match t.sem with
-          | .lit x => (st, vals ++ [.str x], none)
-          | .ref n =>
-            match getParam f p st n with
-            | (st', .ok v) => (st', vals ++ [valOfRV v], none)
-            | (st', .error e) => (st', vals, some e)
-          | .call _ goFn params =>
-            match builtinCall p goFn params with
-            | .ok v => (st, vals ++ [v], none)
-            | .error e => (st, vals, some ("cannot execute " ++ t.raw ++ ": " ++ e))) (st, [], none)
+        let (st, vals, err) := ts.foldl (evalTokStep (fun st n => getParam f p st n) p) (st, [], none)
         match err with
         | some e => (st, .error e)
         | none =>
@@ -237,11 +360,7 @@ def resolveArg : Nat → Prog → St → Bag → Output.Arg → St × Bag × Exc
 def resolveArgs : Nat → Prog → St → Bag → List Output.Arg → St × Bag × Except String (List RV)
   | 0, _, st, bag, _ => (st, bag, .error "out of fuel")
   | f+1, p, st, bag, as =>
-    let (st, bag, vals, errs) := as.foldl (fun (acc : St × Bag × List RV × List String) a =>
-      let (st, bag, vals, errs) := acc
-      match resolveArg f p st bag a with
-      | (st', bag', .ok v) => (st', bag', vals ++ [v], errs)
-      | (st', bag', .error e) => (st', bag', vals ++ [.nil], errs ++ [e])) (st, bag, [], [])
+    let (st, bag, vals, errs) := as.foldl (argsStep (fun st bag a => resolveArg f p st bag a)) (st, bag, [], [])
     if errs.isEmpty then (st, bag, .ok vals) else (st, bag, .error (String.intercalate "; " errs))
 
 /-- `Container.get(id, bag)` -/
@@ -262,81 +381,7 @@ def get : Nat → Prog → St → Bag → String → St × Bag × Except String 
       match cached with
       | some v => (st, bag, .ok v)
       | none =>
-      if s.todo then (st, bag, .error ("get(" ++ Val.quoteStr id ++ "): constructor: service todo")) else
-      -- creation
-      let (st, bag, created) : St × Bag × Except String RV :=
-        if s.constructor != "" then
-          match resolveArgs f p st bag s.args with
-          | (st, bag, .error e) => (st, bag, .error ("constructor args: " ++ e))
-          | (st, bag, .ok vals) =>
-            let sym := symbol p s.constructor
-            if sym.endsWith ".NewFail" then (st, bag, .error "constructor: boom")
-            else
-              let (st, n) := alloc st { ctor := sym, args := vals }
-              (st, bag, .ok (.ref (!sym.endsWith ".NewVal") n))
-        else if s.value != "" then
-          -- the value expression is evaluated at every construction: a struct literal (`&pkg.Obj{}` / `pkg.Obj{}`) is a
-          -- fresh object each time (it can then receive fields and calls of its own); other expressions denote what they name
-          if s.value.endsWith "{}" then
-            let (st, n) := alloc st { ctor := "", args := [] }
-            (st, bag, .ok (.ref (stripAmp s.value).1 n))
-          else (st, bag, .ok (goValue p s.value))
-        else (st, bag, .ok (zeroOf s.type))
-      match created with
-      | .error e => (st, bag, .error ("get(" ++ Val.quoteStr id ++ "): " ++ e))
-      | .ok obj =>
-      -- fields, in emitted (sorted) order; all are attempted
-      let (st, bag, ferrs) := s.fields.foldl (fun (acc : St × Bag × List String) fl =>
-        let (st, bag, errs) := acc
-        match resolveArg f p st bag fl.value with
-        | (st', bag', .error e) => (st', bag', errs ++ [e])
-        | (st', bag', .ok v) =>
-          match obj with
-          | .ref _ n => (updObj st' n fun o => if fl.name == "F1" then { o with f1 := some v } else { o with f2 := some v }, bag', errs)
-          | _ => (st', bag', errs ++ ["set field: not a settable object"])) (st, bag, [])
-      if !ferrs.isEmpty then (st, bag, .error ("get(" ++ Val.quoteStr id ++ "): " ++ String.intercalate "; " ferrs)) else
-      -- calls in order; a wither replaces the object; all calls are attempted unless a wither fails
-      let (st, bag, obj, cerrs) := s.calls.foldl (fun (acc : St × Bag × RV × List String) c =>
-        let (st, bag, cur, errs) := acc
-        match resolveArgs f p st bag c.args with
-        | (st', bag', .error e) => (st', bag', cur, errs ++ [e])
-        | (st', bag', .ok vals) =>
-          match cur with
-          | .ref _ n =>
-            if c.immutable then
-              let path := match (st'.heap.lookup n) with
-                | some o => ((o.ctor.splitOn ".").dropLast |> String.intercalate ".")
-                | none => ""
-              let (st'', m) := alloc st' { ctor := path ++ "." ++ c.method, args := vals, prev := some cur }
-              (st'', bag', .ref true m, errs)
-            else (updObj st' n fun o => { o with log := o.log ++ [(c.method, vals)] }, bag', cur, errs)
-          | _ => (st', bag', cur, errs ++ ["call on a non-object"])) (st, bag, obj, [])
-      if !cerrs.isEmpty then (st, bag, .error ("get(" ++ Val.quoteStr id ++ "): " ++ String.intercalate "; " cerrs)) else
-      -- decorators in declaration order, for the tags the service carries; first error stops
-      let (st, bag, obj, derr, _) := p.out.decorators.foldl (fun (acc : St × Bag × RV × Option String × Nat) d =>
-        let (st, bag, cur, err, i) := acc
-        if err.isSome then (st, bag, cur, err, i + 1) else
-        if !(s.tags.any (·.name == d.tag)) then (st, bag, cur, err, i + 1) else
-        match resolveArgs f p st bag d.args with
-        | (st', bag', .error e) => (st', bag', cur, some e, i + 1)
-        | (st', bag', .ok vals) =>
-          let sym := symbol p d.decorator
-          let base : Obj := { ctor := sym, args := [.prim (.str d.tag), .prim (.str id)] ++ vals }
-          let o : Obj := match cur with
-            | .ref true _ => { base with prev := some cur }
-            | .anon true _ => { base with prev := some cur }
-            | .nilobj => base
-            | _ => { base with f1 := some cur }
-          let (st'', m) := alloc st' o
-          (st'', bag', .ref true m, none, i + 1)) (st, bag, obj, none, 0)
-      match derr with
-      | some e => (st, bag, .error ("get(" ++ Val.quoteStr id ++ "): " ++ e))
-      | none =>
-        let st := { st with evalLog := st.evalLog ++ ["ctor:" ++ id] }
-        match sc with
-        | .shared => ({ st with shared := (id, obj) :: st.shared }, bag, .ok obj)
-        | .contextual => (st, (id, obj) :: bag, .ok obj)
-        | _ => (st, bag, .ok obj)
+      getBody (fun st bag a => resolveArg f p st bag a) (fun st bag as => resolveArgs f p st bag as) p s sc id st bag
 
 /-- `getTaggedBy(tag, bag)`: the services carrying the tag, by priority descending then id
 ascending, each obtained with `get` -/
@@ -347,12 +392,7 @@ def getTagged : Nat → Prog → St → Bag → String → St × Bag × Except S
       if (st.ovServices.lookup s.name).isSome then none else
       (s.tags.find? (·.name == tag)).map fun t => (s.name, t.priority)
     let sorted := carriers.mergeSort fun a b => if a.2 = b.2 then AMap.strLe a.1 b.1 else decide (a.2 > b.2)
-    let (st, bag, vals, err) := sorted.foldl (fun (acc : St × Bag × List RV × Option String) c =>
-      let (st, bag, vals, err) := acc
-      if err.isSome then acc else
-      match get f p st bag c.1 with
-      | (st', bag', .ok v) => (st', bag', vals ++ [v], none)
-      | (st', bag', .error e) => (st', bag', vals, some e)) (st, bag, [], none)
+    let (st, bag, vals, err) := sorted.foldl (taggedStep (fun st bag n => get f p st bag n)) (st, bag, [], none)
     match err with
     | some e => (st, bag, .error ("getTaggedBy(" ++ Val.quoteStr tag ++ "): " ++ e))
     | none => (st, bag, .ok (.slice vals))
